@@ -219,7 +219,7 @@ func writeEvidence(spec *Spec, tier string, seed int64, results []*instResult, w
 		"solver_time_s":                 math.Round(solverTime*100) / 100,
 		"checker_cmd":                   "/verif/check " + spec.Property + " --tier " + tier,
 		"trusted_base":                  append([]string{"go/ssa (x/tools v0.29.0) as the semantics of the source", "symgo executor (/verif/engine): SSA -> SMT-LIB translation, merging, memory model", "z3 4.8.12 / cvc5 1.0 (an obligation counts only if one says unsat and none says sat)"}, spec.Trusted...),
-		"repo_state":                    gitDescribe("/repo"),
+		"repo_state":                    gitDescribe(strings.TrimSuffix(strings.TrimSuffix(spec.PackageDir, "/hermes"), "/src/calcHermesBatch")),
 		"known_findings":                kf,
 		"notes":                         notes,
 		"outside_claim":                 spec.Outside,
@@ -235,9 +235,13 @@ func writeEvidence(spec *Spec, tier string, seed int64, results []*instResult, w
 		"wall_s":      math.Round(wall*100) / 100,
 		"violations":  nviol,
 	}
-	os.MkdirAll(filepath.Join(verifRoot, "evidence"), 0755)
+	evDir := filepath.Join(verifRoot, "evidence")
+	if altOut != "" {
+		evDir = filepath.Join(altOut, "evidence")
+	}
+	os.MkdirAll(evDir, 0755)
 	b, _ := json.MarshalIndent(ev, "", " ")
-	os.WriteFile(filepath.Join(verifRoot, "evidence", spec.Property+".json"), b, 0644)
+	os.WriteFile(filepath.Join(evDir, spec.Property+".json"), b, 0644)
 }
 
 func max1(a int) int {
